@@ -240,7 +240,7 @@ theorem pairs_complete : Generated.batchPairs.map (fun t => (t.2.1, t.2.2)) = pa
 /-- … and the only einsum string in such an `if` without a counterpart in the other branch is the column scaling
     of `truncated_svd` (see `truncated_svd_scale_is_lift`) -/
 theorem unpaired_from_source :
-    Generated.batchUnpaired.map (fun t => (t.1, t.2.2.1, t.2.2.2)) = [("round.truncated_svd", "batched", "bij,bj->bij")] := by
+    Generated.batchUnpaired = [("round.truncated_svd", "batched", "bij,bj->bij")] := by
   decide
 
 end TN.C18
